@@ -136,6 +136,23 @@ theorem plane_multiply_monolithic (ph : R → K) (amp : Attr K) (opd : Attr R) (
   rw [sumList_cons, sumList_nil, add_zero]
   rfl
 
+/-- non-vacuity: a 2×3 segment of a 5×5 plane satisfies `covers` and `hbig`, and on the fresh wavefront the theorem gives
+amplitude 2 at a masked pixel -/
+example : Witness.g2.covers 5 5 ∧ sumList (planeMultiply Witness.ph1 ⟨.scalar 2, .scalar 0, .segs 5 5 [Witness.g2]⟩ [Witness.w0])
+    (fun g => g.emb 0 0) = 2 := ⟨Witness.g2_ok.1, by rfl⟩
+
+/-- **known finding KF-C07-one-pixel-segment, on the model** (the negation of `plane_multiply_pointwise` without `hbig`):
+a segment whose bounding box is the single pixel (1, 1) of a 5×5 plane — global coordinate (-1, -1) — has transmission 1
+there and 0 at (1, 1); yet on the fresh wavefront the product is dropped altogether, and on a 5×5 field of ones the total
+at (1, 1), outside the mask, is 1 instead of 0 (the 1×1 phasor is broadcast as a scalar by `Field.__mul__`). -/
+theorem kf_one_pixel_segment :
+    Witness.g1.covers 5 5 ∧
+    segFactor Witness.ph1 (.scalar 1) (.scalar 0) 5 5 Witness.g1.m (-1) (-1) = 1 ∧
+    segFactor Witness.ph1 (.scalar 1) (.scalar 0) 5 5 Witness.g1.m 1 1 = 0 ∧
+    planeMultiply Witness.ph1 ⟨.scalar 1, .scalar 0, .segs 5 5 [Witness.g1]⟩ [Witness.w0] = [] ∧
+    sumList (planeMultiply Witness.ph1 ⟨.scalar 1, .scalar 0, .segs 5 5 [Witness.g1]⟩ [Witness.ones55]) (fun q => q.emb 1 1) = 1 :=
+  ⟨Witness.g1_covers, by rfl, by rfl, by rfl, by rfl⟩
+
 /-- **scalar (0-d) mask, scalar or array amplitude / OPD**: the single phasor is
 `amplitude * mask * exp(2 pi i opd / wavelength)` on the centred grid of the array attribute and `0` outside it; when
 both attributes are scalars it is a constant on the whole plane. (Array attribute of shape `(1, 1)`: one-element scope
@@ -280,6 +297,10 @@ theorem insert_disjoint_normSq (nsq : K → K) (h0 : nsq 0 = 0) (gs : List (Fld 
       rw [hz, h0, zero_mul, add_zero, add_zero, ge]
       unfold embAt; rw [if_pos hin, if_pos hin]
     · rw [ge]; unfold embAt; rw [if_neg hin, if_neg hin, zero_add, zero_add]
+
+/-- non-vacuity of the reduce hypotheses below: a single field reduces to itself -/
+example : reduce [Witness.a55] = [Witness.a55].map some ∧
+    [Witness.a55].Pairwise (fun a b => ∀ r c, ¬ (a.extent.inb r c = true ∧ b.extent.inb r c = true)) := ⟨by rfl, by simp⟩
 
 /-- `Wavefront.insert(out, weight)` in terms of what `reduce` returns (`gs`) -/
 theorem wfInsert_of_reduce (nsq : K → K) (data gs : List (Fld K)) (hred : reduce data = gs.map some) (out : Arr K) (w : K) :
